@@ -55,7 +55,7 @@ def run(ctx):
         return
     ctx.floor("C11-a", len(calls_matching(F.main_body(epr), SM_READ)), 1, "state-machine read in execute_pending_reads")
     serve = [c for c in F.callers_of(lambda k: k == epr.id) if c[0] != epr.id and not is_test_body(F.bodies[c[1]])]
-    ctx.floor("C11-a", len(serve), 3, "call sites of execute_pending_reads")
+    ctx.floor("C11-a", len(serve), 1, "call sites of execute_pending_reads")
     # insertions into the wait queue
     ins = []
     for bid, b in F.bodies.items():
@@ -69,11 +69,13 @@ def run(ctx):
         ok, wit, _ = guarded_by(b, bi, lambda c: evidence(F, c) is not None, edge_conditions(b))
         ins_ev.append((b, bi, ok, wit))
     all_ins_ok = bool(ins_ev) and all(x[2] for x in ins_ev)
+    n_serve = 0
     for (root0, bid0, bi0, t) in serve:
         from_queue = Slice(F, F.bodies[bid0], through_calls=True).operand(t["args"][1]).has_field("LeaderState", "pending_reads")
         # the function in which the evidence for this serve is (or should be) established
         for (b, bi, ok, wit) in lift_to_guard(F, F.bodies[bid0], bi0, lambda c: evidence(F, c) is not None):
             root = F.root_of[b.id]
+            n_serve += 1
             conds = edge_conditions(b)
             kinds = sorted(set(evidence(F, c) for c in conds.values() if evidence(F, c) and guarded_by(b, bi, lambda x: x is c, conds)[0]))
             if not from_queue and b.id != bid0:
@@ -93,6 +95,7 @@ def run(ctx):
                         % ("; the queue it serves is filled at %s on paths where the lease is invalid" % unev if from_queue else ""),
                         loc(b, bi), wit and bpath(b, wit))
 
+    ctx.floor("C11-a", n_serve, 3, "serve sites of linearizable reads (inline, quorum ACK, apply completed) after lifting through helpers")
     # ---------------------------------------------------------------- C11-b noop gate / read index / apply gate
     ex = ctx.anchor(F.method, "LeaderState", "execute_and_process_raft_rpc")
     if ex:
@@ -153,19 +156,28 @@ def run(ctx):
                   "calculate_read_index is not max(commit_index(), noop index): %s" % sorted(x for x in s.sources if x[0] in ("call", "field", "binop"))[:8],
                   "%s:%s" % (cri.file, cri.line))
     # queue release: key bound by the applied index
+    hac_fn = F.try_method("LeaderState", "handle_apply_completed")
     for (root, bid, bi, t) in serve:
         b = F.bodies[bid]
         s = Slice(F, b, through_calls=True).operand(t["args"][1])
         if not s.has_field("LeaderState", "pending_reads"):
             continue
-        rngs = sorted(strip_generics(x[1]).split("::")[-1] for x in s.sources if x[0] == "agg" and "ops::range::Range" in x[1])
-        bounded = s.has_call(r"BTreeMap::range$") and rngs and all(r in ("RangeToInclusive", "RangeTo") for r in rngs)
-        root_b = F.bodies[root]
-        applied = s.has_call(r"StateMachine::last_applied$") or (fkey(root).endswith("handle_apply_completed") and root_b.argc >= 2 and s.has_param(root_b.local_name(2)))
-        ctx.check("C11-b", "%s#queue-release<=applied" % fkey(root), bool(bounded and applied),
-                  "released keys come from pending_reads.range(..=applied index)",
-                  "queued reads are released with a key not bounded above by the applied index (ranges %s, applied-derived=%s): a read whose read_index "
-                  "is not applied yet is served" % (rngs, applied), loc(b, bi))
+        rng_calls = [(cbi, ct) for (cbi, ct) in s.call_sites if strip_generics(callee_key(ct) or "").endswith("BTreeMap::range") and len(ct["args"]) >= 2]
+        if not rng_calls:
+            ctx.bad("C11-b", "%s#queue-release<=applied" % fkey(root), "queued reads are released without a pending_reads.range(..=applied) bound", loc(b, bi))
+            continue
+        for (cbi, ct) in rng_calls:
+            # the bound, followed through helper parameters to the function that knows the applied index
+            for (ob, obi, bs) in lifted_arg_sources(F, b, ct["args"][1]):
+                oroot = F.root_of[ob.id]
+                rngs = sorted(strip_generics(x[1]).split("::")[-1] for x in bs.sources if x[0] == "agg" and "ops::range::Range" in x[1])
+                bounded = bool(rngs) and all(r in ("RangeToInclusive", "RangeTo") for r in rngs)
+                rb = F.bodies[oroot]
+                applied = bs.has_call(r"StateMachine::last_applied$") or (hac_fn is not None and oroot == hac_fn.id and rb.argc >= 2 and bs.has_param(rb.local_name(2)))
+                ctx.check("C11-b", "%s#queue-release<=applied" % fkey(oroot), bool(bounded and applied),
+                          "released keys come from pending_reads.range(..=applied index)",
+                          "queued reads are released with a key not bounded above by the applied index (ranges %s, applied-derived=%s): a read whose read_index "
+                          "is not applied yet is served" % (rngs, applied), loc(ob, obi if obi is not None else cbi))
 
     # ---------------------------------------------------------------- C11-c step-down drains the read queues
     drb = ctx.anchor(F.method, "LeaderState", "drain_read_buffer")
